@@ -35,7 +35,8 @@ def fault_fails(recs, texts):
                 fails.append((texts.get(d["hist"], ""), Fail("atomic", d["index"],
                     "%s returned an error after a failing %s call (#%d, in %s) but the tree changed: before %s, after %s" %
                     (op, d["kind"], d["pos"], d["site"], d.get("before", "")[:200], d.get("after", "")[:200]),
-                    {"op": op, "site": d["site"], "kind": d["kind"], "pos": d["pos"], "history": d["hist"], "engine": "faults"})))
+                    {"op": op, "site": d["site"], "kind": d["kind"], "pos": d["pos"], "history": d["hist"], "engine": "faults",
+                     "post_size": d.get("post_size", ""), "post_contents": d.get("post_contents", "")})))
             elif not d["retry_same"]:
                 fails.append((texts.get(d["hist"], ""), Fail("retry", d["index"],
                     "%s failed cleanly on a failing %s call (#%d, in %s) but the retry did not give the normal result: %s vs %s" %
@@ -85,6 +86,29 @@ def faults(eng):
             "coverage": {"fault_histories": len(hs), "faults": dict(stats), "faulted_ops": dict(ops), "fault_sites_hit": dict(sites.most_common(40)),
                          "note": "panics and swallowed errors after an injected KeyCompare failure (findNode's binary search ignores the error; validateNode panics) are counted under outcome_panic / outcome_ok: C12 speaks about calls that return an error"},
             "samples": [recs[0]] if recs else []}
+
+def faults_persisted(eng):
+    """C09 under faults: after every failed Insert / Delete (a fault at each Load / KeyCompare / Marshal call) the tree is
+    persisted, the returned root is loaded into a fresh tree and its recorded size is compared with the entries reachable"""
+    rng = random.Random(eng.seed * 7 + 9)
+    n = 30 if eng.tier == "quick" else 300
+    hs = gen.prof_faults(rng, n, eng.tier)
+    texts = {}
+    for i, h in enumerate(hs):
+        h.id = "%s-p%d-%d" % (h.id, eng.seed, i); h.opts["persistcheck"] = 1; texts[h.id] = h.text()
+    recs = run_mode(eng, "faults", "".join(h.text() for h in hs), "faultsp")
+    fails = []; stats = collections.Counter()
+    for d in recs:
+        if not d.get("persisted"):
+            continue
+        stats["persisted_after_failed_call"] += 1
+        if d["persisted"] != "ok":
+            op = OPNAME.get(d["op"].split()[0], d["op"].split()[0])
+            fails.append((texts.get(d["hist"], ""), Fail("faulted-rootsize", d["index"],
+                "%s failed on a failing %s call (#%d, in %s); %s" % (op, d["kind"], d["pos"], d["site"], d["persisted"][:300]),
+                {"op": op, "site": d["site"], "kind": d["kind"], "pos": d["pos"], "history": d["hist"], "engine": "faults"})))
+    return {"fails": fails, "evaluations": stats["persisted_after_failed_call"], "distinct": [],
+            "coverage": {"persisted_after_failed_call": dict(stats)}, "samples": []}
 
 def sched_fails(recs, texts):
     fails = []; stats = collections.Counter(); peak = 0; orders = set()
